@@ -4,6 +4,7 @@ Code under test: TimeSeriesHolder.GetSeriesList / GenerateCSVtext, EquationSolve
 Oracle: parse the text back (inverse), header order rule, row counts.
 """
 import math
+import re
 
 from hypothesis import strategies as st
 
@@ -54,11 +55,27 @@ def holder_case(draw):
     fk = draw(st.sampled_from(['g', 'f', 'e', 's', 'r', 'default']))
     prec = draw(st.integers(0, 17))
     fmt = {'g': '%%.%dg' % prec, 'f': '%%.%df' % min(prec, 12), 'e': '%%.%de' % prec, 's': '%s', 'r': '%r', 'default': None}[fk]
+    if fmt is not None and draw(st.sampled_from([True, False, False, False])):
+        # "all format strings": literal text around the conversion (quoted fields, a unit, a percent sign)
+        pre, post = draw(st.sampled_from(DECORATIONS))
+        fmt = pre + fmt + post
     return {'series': series, 'fmt': fmt, 'later': later}
 
 
 def val(v):
     return int(v[1]) if v[0] == 'i' else float(v[1])
+
+
+DECORATIONS = [('"', '"'), ('', '"'), ("'", "'"), ('', '%%'), ('v=', ''), ('[', ']'), ('', ' in'), ('$', '')]
+_FMT_RE = re.compile(r'^(?P<pre>(?:[^%]|%%)*)(?P<core>%[-+ #0]*\d*(?:\.\d+)?[sdrfeEgG])(?P<post>(?:[^%]|%%)*)$')
+
+
+def split_format(fmt):
+    """(literal prefix, conversion, literal suffix) of a one-conversion format string; literals with %% resolved."""
+    m = _FMT_RE.match(fmt)
+    if m is None:
+        return '', fmt, ''
+    return m.group('pre').replace('%%', '%'), m.group('core'), m.group('post').replace('%%', '%')
 
 
 def check_table(text, data, fmt, bucket='C19'):
@@ -94,8 +111,14 @@ def check_table(text, data, fmt, bucket='C19'):
             if cell != want:
                 raise Violation(bucket + '/cell-format', 'row %d column %s: cell %r, value %r with %r gives %r' %
                                 (i, name, cell, v, fmt, want))
+            pre_, core_, post_ = split_format(fmt)
+            inner = cell
+            if pre_ or post_:
+                if not (cell.startswith(pre_) and cell.endswith(post_) and len(cell) >= len(pre_) + len(post_)):
+                    raise Violation(bucket + '/cell-unparseable', 'cell %r lacks the literal text of format %r' % (cell, fmt))
+                inner = cell[len(pre_):len(cell) - len(post_)]
             try:
-                back = float(cell)
+                back = float(inner)
             except ValueError:
                 raise Violation(bucket + '/cell-unparseable', 'cell %r does not parse as a number' % cell)
             fv = float(v)
@@ -107,10 +130,10 @@ def check_table(text, data, fmt, bucket='C19'):
                 # compare as exact decimals: a value near the largest float may legitimately round up past it
                 from fractions import Fraction
                 if math.isfinite(back):
-                    ok = abs(back - fv) <= precision(fmt, fv)
+                    ok = abs(back - fv) <= precision(core_, fv)
                 else:
                     try:
-                        ok = abs(Fraction(cell) - Fraction(fv)) <= Fraction(precision(fmt, fv))
+                        ok = abs(Fraction(inner) - Fraction(fv)) <= Fraction(precision(core_, fv))
                     except (ValueError, ZeroDivisionError):
                         ok = False
             if not ok:
@@ -197,7 +220,7 @@ def run_holder(spec):
 def solved_case(draw):
     spec = draw(blocks.system(n_sim=(1, 4), q_hi=60, lags=(0, 2), exos=(0, 2), consts=(0, 1), aliases=(0, 1), leaves=(0, 1),
                               horizon=(0, 6), tols=('1e-6',), user_t=(False, True)))
-    spec['fmt'] = draw(st.sampled_from([None, '%.5g', '%.3f', '%r', '%.12e', '%s']))
+    spec['fmt'] = draw(st.sampled_from([None, '%.5g', '%.3f', '%r', '%.12e', '%s', '"%.3f"', '%.1f"', '%.2f%%']))
     spec['reduction'] = draw(st.booleans())
     # the horizon is given in the text, or set on the solver (then the text states another one, which is overridden)
     spec['text_maxtime'] = draw(st.sampled_from([None, None, 0, 3, 9, 1]))
